@@ -84,6 +84,28 @@ Proof. reflexivity. Qed.
 Lemma t_end_append tr e : t_end (t_append tr e) = fst e.
 Proof. reflexivity. Qed.
 
+(* DropletTrack.append on the list of time codes: an explicitly given time code -- 0 included -- is
+   stored as given (it becomes track.end, which the frame loop compares with the previous frame's
+   time); only an omitted one is replaced by the default *)
+Lemma last_time_app ts t : last_time (ts ++ [t]) = Some t.
+Proof.
+  induction ts as [|a ts IH]; [reflexivity|].
+  simpl. destruct (ts ++ [t]) eqn:E; [destruct ts; discriminate|]. exact IH.
+Qed.
+
+Lemma append_times_explicit ts t : last_time (append_times ts (Some t)) = Some t.
+Proof. unfold append_times, append_time. apply last_time_app. Qed.
+
+Lemma append_times_explicit_zero ts : last_time (append_times ts (Some 0%Q)) = Some 0%Q.
+Proof. apply append_times_explicit. Qed.
+
+Lemma append_times_default ts t :
+  last_time ts = Some t -> last_time (append_times ts None) = Some (t + 1)%Q.
+Proof. intros H. unfold append_times, append_time. rewrite H. apply last_time_app. Qed.
+
+Lemma append_times_length ts o : length (append_times ts o) = S (length ts).
+Proof. unfold append_times. rewrite app_length. simpl. apply Nat.add_1_r. Qed.
+
 Lemma last_entry_in tr : In (snd tr) (entries tr).
 Proof. unfold entries. apply in_or_app. right. left. reflexivity. Qed.
 
